@@ -15,11 +15,15 @@ import gen
 import p2
 
 
+F64_MAX = Fraction(1.7976931348623157e308)
+
+
 def parse_state(kv):
-    q = [h2f(t) for t in kv['q'].split(',')]
+    # serde_json's Value tree cannot carry non-finite floats (they become null): read them as NaN
+    q = [float('nan') if t == 'null' else h2f(t) for t in kv['q'].split(',')]
     n = [int(t[1:]) for t in kv['n'].split(',')]
-    m = [h2f(t) for t in kv['m'].split(',')]
-    dm = [h2f(t) for t in kv['dm'].split(',')]
+    m = [float('nan') if t == 'null' else h2f(t) for t in kv['m'].split(',')]
+    dm = [float('nan') if t == 'null' else h2f(t) for t in kv['dm'].split(',')]
     return p2.State(q, n, m, dm)
 
 
@@ -58,8 +62,17 @@ class Judge:
         r.count('evaluations')
         r.count('invariant_states')
 
+        # input classes of the two recorded known findings (known_findings.txt); any other violation keeps a plain signature
+        cls = ''
+        if nobs > 0:
+            if Fraction(mx) - Fraction(mn) > F64_MAX:
+                cls = ':range-overflows-f64'
+            elif nobs < 5 and 0 < max(abs(mn), abs(mx)) < 2.0 ** -1021:
+                cls = ':small-sample-midpoint-subnormal'
+
         def viol(sig, msg):
-            r.violation('C15', 'Quantile:%s' % sig, 'Quantile(p=%r) %s: %s' % (p, ctx, msg), case, self.variant)
+            r.violation('C15', 'Quantile:%s%s' % (sig, cls if sig.startswith(('quantile:out-of-range', 'quantile:nan', 'state:')) else ''),
+                        'Quantile(p=%r) %s: %s' % (p, ctx, msg), case, self.variant)
         ln = val(kv['len'])
         if ln != nobs:
             viol('len', 'len() = %r after %d observations' % (ln, nobs))
@@ -168,7 +181,7 @@ class Judge:
 
 
 STREAM_KINDS = ('random', 'sorted', 'reversed', 'zigzag', 'trend_up', 'trend_down', 'dups', 'twovalue', 'constant', 'bigmag',
-                'newmin_bursts', 'signed_zero')
+                'newmin_bursts', 'signed_zero', 'tinymag', 'hugemag', 'nearmax')
 
 
 def make_stream(rng, kind, n):
@@ -208,6 +221,19 @@ def make_stream(rng, kind, n):
         return xs
     if kind == 'signed_zero':
         return [rng.choice([0.0, -0.0, 1.0, -1.0, 0.5]) for _ in range(n)]
+    if kind == 'tinymag':
+        # order-one data scaled by 2^-600: products of two height differences underflow, the values themselves do not
+        base = make_stream(rng, rng.choice(['random', 'sorted', 'reversed', 'newmin_bursts', 'trend_down']), n)
+        m = max(abs(x) for x in base) or 1.0
+        return [x / m * 2.0 ** -600 for x in base]
+    if kind == 'hugemag':
+        base = make_stream(rng, rng.choice(['random', 'sorted', 'reversed', 'newmin_bursts', 'trend_down']), n)
+        m = max(abs(x) for x in base) or 1.0
+        return [x / m * 2.0 ** 500 for x in base]
+    if kind == 'nearmax':
+        # same sign, close to f64::MAX: sums of two observations overflow, differences do not
+        s = rng.choice([-1.0, 1.0])
+        return [s * rng.uniform(0.5, 1.0) * 1.7976931348623157e308 for _ in range(n)]
     raise ValueError(kind)
 
 
@@ -275,8 +301,14 @@ def stream_shard(desc):
         kind = rng.choice(STREAM_KINDS)
         r = rng.random()
         n = rng.randint(5, 60) if r < 0.5 else (rng.randint(60, desc['dense']) if r < 0.95 else rng.randint(1000, desc['longmax']))
+        force_long = i < desc.get('nlong', 0)
+        if force_long:
+            n = rng.randint(66000, 72000)
+            kind = rng.choice(['random', 'trend_up', 'newmin_bursts', 'dups'])
         xs = make_stream(rng, kind, n)
         p = rng.choice(P_CHOICES) if rng.random() < 0.8 else rng.random()
+        if force_long:
+            p = rng.choice([0.75, 0.9, 0.1, 1.0 / 3.0, 0.5])
         c = Case('%s-%d' % (desc['name'], i), 'Quantile', [p], meta={'kind': kind})
         c.op('N', 0)
         marks = [(c.op('OS', 0), 0)]
@@ -286,6 +318,8 @@ def stream_shard(desc):
                 marks.append((c.op('OS', 0), j))
         else:
             wins = sorted(rng.randint(5, n - 60) for _ in range(4))
+            if n > 65600:
+                wins = sorted(wins[:2] + [255 - 20, 4096 - 20, 65536 - 25])
             pos = 0
             for w in wins:
                 if w > pos:
